@@ -9,12 +9,14 @@ import (
 	"io"
 	"os"
 	"sort"
+	"strings"
 	"time"
 
 	"github.com/aml-org/amf-custom-validator/pkg"
 	"github.com/aml-org/amf-custom-validator/pkg/config"
 	"github.com/aml-org/amf-custom-validator/pkg/events"
 	"github.com/aml-org/amf-custom-validator/pkg/verifhook"
+	"github.com/open-policy-agent/opa/ast"
 )
 
 type fixedClock struct{}
@@ -167,6 +169,9 @@ var implOps = map[string]func(h caseHead, raw []byte) map[string]any{
 	"c03":  implC03,
 	"cli":  implCli,
 	"c16":  implC16,
+	"c13":  implC13,
+	"report": implReport,
+	"c14":    implC14,
 }
 
 func runImpl(in io.Reader, out io.Writer) {
@@ -438,5 +443,156 @@ func implC16(h caseHead, raw []byte) (res map[string]any) {
 		return res
 	}
 	res["result"] = d
+	return res
+}
+
+// c13: hostile text as profile name, validation name, message and list values
+type c13Head struct {
+	Name     string   `json:"name"`
+	VName    string   `json:"vname"`
+	Message  string   `json:"message"`
+	ListVals []string `json:"listvals"`
+}
+
+func implC13(h caseHead, raw []byte) map[string]any {
+	var ch c13Head
+	json.Unmarshal(raw, &ch)
+	res := map[string]any{}
+	// unit level: the quoting function and the engine's own lexer
+	quoted := map[string]string{}
+	lexOk := true
+	for _, s := range append([]string{ch.Name, ch.VName, ch.Message}, ch.ListVals...) {
+		q := verifhook.RegoString(s)
+		quoted[s] = q
+		t, err := ast.ParseTerm(q)
+		if err != nil {
+			lexOk = false
+			continue
+		}
+		if sv, ok := t.Value.(ast.String); !ok || string(sv) != s {
+			lexOk = false
+		}
+	}
+	res["quoted"] = quoted
+	res["engineLexesBack"] = lexOk
+	expr, vars := verifhook.ParseMessage(ch.Message)
+	res["msgFormat"] = expr
+	if vars == nil {
+		vars = []string{}
+	}
+	res["msgVars"] = vars
+	o := validate(h.Profile, h.Data, defaultRC())
+	res["outcome"] = o.Kind
+	if o.Kind != "ok" {
+		res["err"] = o.Err
+		return res
+	}
+	rv, err := ReadReport(o.Report)
+	if err != nil {
+		res["outcome"] = "badreport"
+		res["err"] = err.Error()
+		return res
+	}
+	res["profileName"] = rv.ProfileName
+	var results []map[string]any
+	for _, r := range rv.Results {
+		results = append(results, map[string]any{"shape": r.Shape, "focus": r.Focus, "message": r.Message})
+	}
+	res["results"] = results
+	return res
+}
+
+// report: validate and hand back the whole parsed report
+func implReport(h caseHead, raw []byte) map[string]any {
+	o := validate(h.Profile, h.Data, defaultRC())
+	res := map[string]any{"outcome": o.Kind}
+	if o.Kind != "ok" {
+		res["err"] = o.Err
+		return res
+	}
+	var doc any
+	if err := json.Unmarshal([]byte(o.Report), &doc); err != nil {
+		res["outcome"] = "badreport"
+		res["err"] = err.Error()
+		return res
+	}
+	res["report"] = doc
+	return res
+}
+
+// c14: locations of results and traces, numbers kept as written in the report
+func implC14(h caseHead, raw []byte) map[string]any {
+	o := validate(h.Profile, h.Data, defaultRC())
+	res := map[string]any{"outcome": o.Kind}
+	if o.Kind != "ok" {
+		res["err"] = o.Err
+		return res
+	}
+	dec := json.NewDecoder(strings.NewReader(o.Report))
+	dec.UseNumber()
+	var doc []map[string]any
+	if err := dec.Decode(&doc); err != nil {
+		res["outcome"] = "badreport"
+		return res
+	}
+	rep := doc[0]["doc:encodes"].([]any)[0].(map[string]any)
+	locStr := func(l any) any {
+		m, ok := l.(map[string]any)
+		if !ok {
+			return nil
+		}
+		r, _ := m["range"].(map[string]any)
+		s, _ := r["start"].(map[string]any)
+		e, _ := r["end"].(map[string]any)
+		return map[string]any{"uri": m["uri"], "nums": []string{fmt.Sprint(s["line"]), fmt.Sprint(s["column"]), fmt.Sprint(e["line"]), fmt.Sprint(e["column"])}}
+	}
+	out := map[string]any{}
+	rs, _ := rep["result"].([]any)
+	for _, r := range rs {
+		m := r.(map[string]any)
+		focus, _ := m["focusNode"].(string)
+		entry := map[string]any{"location": locStr(m["location"])}
+		var tl []any
+		ts, _ := m["trace"].([]any)
+		for _, t := range ts {
+			tl = append(tl, locStr(t.(map[string]any)["location"]))
+		}
+		entry["traceLocations"] = tl
+		// everything except the locations, to check that source maps change nothing else
+		delete(m, "location")
+		for _, t := range ts {
+			delete(t.(map[string]any), "location")
+		}
+		out[focus] = entry
+	}
+	res["byFocus"] = out
+	res["conforms"] = rep["conforms"]
+	// the same graph without any source-map node: results must be identical apart from the locations
+	var nodes []map[string]any
+	json.Unmarshal([]byte(h.Data), &nodes)
+	var plain []map[string]any
+	for _, n := range nodes {
+		if ts, ok := n["@type"].([]any); ok && len(ts) == 1 && ts[0] == NS+"T" {
+			plain = append(plain, n)
+		}
+	}
+	pb, _ := json.Marshal(plain)
+	o2 := validate(h.Profile, string(pb), defaultRC())
+	same := false
+	if o2.Kind == "ok" {
+		var doc2 []map[string]any
+		d2 := json.NewDecoder(strings.NewReader(o2.Report))
+		d2.UseNumber()
+		if d2.Decode(&doc2) == nil {
+			rep2 := doc2[0]["doc:encodes"].([]any)[0].(map[string]any)
+			a, _ := json.Marshal(rep["result"])
+			b, _ := json.Marshal(rep2["result"])
+			same = string(a) == string(b) && rep["conforms"] == rep2["conforms"]
+			if strings.Contains(string(b), "\"location\"") {
+				same = false
+			}
+		}
+	}
+	res["sameWithoutMaps"] = same
 	return res
 }
